@@ -134,3 +134,14 @@ Theorem zero_eater_forwards_nonzero : forall (V : Type) (is_zero : V -> bool) (b
   forall b, List.In b (zero_eater is_zero bs) -> b <> [].
 Proof. exact @zero_eater_spec. Qed.
 Print Assumptions zero_eater_forwards_nonzero.
+
+(* output series of a vector aggregation are identified by exactly the grouped label set: one row per (label set,
+   timestamp), each label set being the by/without image of an input label set *)
+Theorem output_series_are_grouped_label_sets :
+  forall (fp : lmap -> N) (varpop stddevpop : list Qc -> Qc), (forall a b, fp a = fp b -> a = b) ->
+  forall f g rows, consistent rows ->
+  NoDup (map (fun r => (r_labels r, r_ts r)) (sem_agg varpop stddevpop f (maybe_bw fp g rows))) /\
+  forall r, List.In r (sem_agg varpop stddevpop f (maybe_bw fp g rows)) ->
+            exists h, List.In h rows /\ r_labels r = regroup g (r_labels h) /\ r_ts r = r_ts h.
+Proof. intros fp varpop stddevpop Hinj f g rows Hc. eapply agg_series_identity; eassumption. Qed.
+Print Assumptions output_series_are_grouped_label_sets.
